@@ -5,6 +5,81 @@ package keeper
 // Contracts for the verification framework in /verif (comment-only file; compiled
 // only with -tags verif, where it contributes nothing but these comments).
 
+//@ // ---- C15: the payload-link registry is write-once ----
+//@ // (KV store model: $kvHas / $kvVal per store name and full key; see engine lib_kv.go)
+//@ spec func linkKey(q) str = "Payload-Value-" + q
+//@ spec func sigKey(q) str = "Signature-Value-" + q
+//@ pred linkPresent(k, q) = $kvHas[storeOf(k.storeKey)][linkKey(q)]
+//@ spec func linkValue(k, q) str = $kvVal[storeOf(k.storeKey)][linkKey(q)]
+//@ // every payload link that was present is still present with the same value
+//@ pred linksPreserved(k) = forall q: str :: {$kvHas[storeOf(k.storeKey)][linkKey(q)]} old($kvHas[storeOf(k.storeKey)][linkKey(q)]) ==>
+//@   $kvHas[storeOf(k.storeKey)][linkKey(q)] && $kvVal[storeOf(k.storeKey)][linkKey(q)] == old($kvVal[storeOf(k.storeKey)][linkKey(q)])
+//@
+//@ func (k Keeper) checkIfPayloadLinkExists(ctx, key) (res)
+//@   ensures res == !linkPresent(k, key)
+//@   prop C15
+//@ func (k Keeper) AppendPayloadLink(ctx, key, value) (err)
+//@   modifies $kvHas, $kvVal
+//@   ensures err == nil && linkPresent(k, key) && linkValue(k, key) == value
+//@   ensures forall s: str, q: str :: {$kvHas[s][q]} !(s == storeOf(k.storeKey) && q == linkKey(key)) ==> $kvHas[s][q] == old($kvHas[s][q]) && $kvVal[s][q] == old($kvVal[s][q])
+//@   prop C15
+//@ func (k msgServer) PublishReferencePayloadLink(goCtx, msg) (resp, err)
+//@   requires msg != nil
+//@   modifies $kvHas, $kvVal
+//@   ensures err == nil ==> !old(linkPresent(k.Keeper, msg.Key)) && linkPresent(k.Keeper, msg.Key) && linkValue(k.Keeper, msg.Key) == msg.Value
+//@   ensures old(linkPresent(k.Keeper, msg.Key)) ==> err != nil
+//@   ensures err != nil ==> $kvHas == old($kvHas) && $kvVal == old($kvVal)
+//@   ensures linksPreserved(k.Keeper)
+//@   prop C15
+//@
+//@ // ---- C15: stored signatures and verification ----
+//@ pred sigPresent(k, q) = $kvHas[storeOf(k.storeKey)][sigKey(q)]
+//@ spec func sigBytes(k, q) str = $kvVal[storeOf(k.storeKey)][sigKey(q)]
+//@ func (k Keeper) AppendSignature(ctx, storageKey, signature) (ts)
+//@   modifies $kvHas, $kvVal
+//@   ensures ts == signature.Timestamp && sigPresent(k, storageKey)
+//@     && sigBytes(k, storageKey) == encOf("types.Signature", signature.Signature, signature.Algorithm, signature.Certificate, signature.Timestamp)
+//@   ensures forall s: str, q: str :: {$kvHas[s][q]} !(s == storeOf(k.storeKey) && q == sigKey(storageKey)) ==> $kvHas[s][q] == old($kvHas[s][q]) && $kvVal[s][q] == old($kvVal[s][q])
+//@   prop C15
+//@ func (k Keeper) GetSignature(ctx, storageKey) (sig, err)
+//@   ensures (err == nil) == sigPresent(k, storageKey)
+//@   ensures err == nil ==> sig != nil && encOf("types.Signature", sig.Signature, sig.Algorithm, sig.Certificate, sig.Timestamp) == sigBytes(k, storageKey)
+//@   prop C15
+//@ func (k Keeper) GetPayloadLink(ctx, referenceID) (link, err)
+//@   ensures (err == nil) == linkPresent(k, sha256hex(referenceID))
+//@   ensures err == nil ==> link == linkValue(k, sha256hex(referenceID))
+//@   prop C15
+//@ func (k Keeper) CreateStorageKey(goCtx, req) (resp, err)
+//@   ensures (err == nil) == (req != nil && len(req.ReferenceId) == 64 && len(req.TargetAccAddress) != 0)
+//@   ensures err == nil ==> resp != nil && resp.StorageKey == sha256hex(req.TargetAccAddress + ":" + req.ReferenceId)
+//@   prop C15
+//@ func (k Keeper) isValidSignature(goCtx, targetAccAddress, signaturePayload, signature, signatureAlgorithm, certificate) (err)
+//@   ensures (err == nil) == (b64ok(signature) && algKnown(signatureAlgorithm) && certOk(certificate)
+//@     && sigVerifies(certificate, algOf(signatureAlgorithm), signaturePayload, b64dec(signature)))
+//@   prop C15
+//@ // verification: valid exactly when the STORED signature verifies under the STORED certificate and algorithm over
+//@ // sha256(address:referenceId:STORED link); the answer carries the stored signature, algorithm, certificate, timestamp
+//@ func (k Keeper) VerifySignature(goCtx, req) (resp, err)
+//@   ensures err == nil ==> req != nil && resp != nil && resp.Valid == "valid"
+//@     && sigPresent(k, sha256hex(req.TargetAccAddress + ":" + req.ReferenceId)) && linkPresent(k, sha256hex(req.ReferenceId))
+//@     && encOf("types.Signature", resp.Signature, resp.Algorithm, resp.Certificate, resp.Timestamp) == sigBytes(k, sha256hex(req.TargetAccAddress + ":" + req.ReferenceId))
+//@     && b64ok(resp.Signature) && algKnown(resp.Algorithm) && certOk(resp.Certificate)
+//@     && sigVerifies(resp.Certificate, algOf(resp.Algorithm),
+//@          sha256hex(req.TargetAccAddress + ":" + req.ReferenceId + ":" + linkValue(k, sha256hex(req.ReferenceId))), b64dec(resp.Signature))
+//@   ensures req != nil && len(req.ReferenceId) == 64 && len(req.TargetAccAddress) != 0
+//@     && sigPresent(k, sha256hex(req.TargetAccAddress + ":" + req.ReferenceId)) && linkPresent(k, sha256hex(req.ReferenceId)) ==>
+//@     (let sb = sigBytes(k, sha256hex(req.TargetAccAddress + ":" + req.ReferenceId)) in
+//@      forall sg: str, al: str, ce: str, ts: str :: {encOf("types.Signature", sg, al, ce, ts)} encOf("types.Signature", sg, al, ce, ts) == sb ==>
+//@        ((err == nil) == (b64ok(sg) && algKnown(al) && certOk(ce) && sigVerifies(ce, algOf(al),
+//@           sha256hex(req.TargetAccAddress + ":" + req.ReferenceId + ":" + linkValue(k, sha256hex(req.ReferenceId))), b64dec(sg)))))
+//@   prop C15
+//@ func (k msgServer) StoreSignature(goCtx, msg) (resp, err)
+//@   requires msg != nil
+//@   modifies $kvHas, $kvVal
+//@   ensures linksPreserved(k.Keeper)
+//@   ensures err != nil ==> $kvHas == old($kvHas) && $kvVal == old($kvVal)
+//@   prop C15
+
 //@ // ---- declared effects (checked per call instruction by the effect checker; anything not listed is effect-free) ----
 //@ effects Keeper.CreateReferenceId nondet.rand
 //@ effects msgServer.CreateAccount auth.setaccount
